@@ -38,7 +38,7 @@ func richStmt(t *rapid.T, o RichOpts) script.Stmt {
 	if o.Helpers {
 		// handlers use the library's own helpers on client controlled data
 		st.ParseParams = rapid.IntRange(0, 2).Draw(t, "parse-params") == 0
-		st.ScanAs = rapid.SliceOfN(rapid.SampledFrom([]string{"int4", "text", "bool", "uuid", "timestamp", "float8", "bytea", ""}), 0, 4).Draw(t, "scan-as")
+		st.ScanAs = rapid.SliceOfN(rapid.SampledFrom([]string{"int4", "text", "bool", "uuid", "timestamp", "float8", "bytea", "_int4", "_text", "_int4", ""}), 0, 4).Draw(t, "scan-as")
 	}
 	n := rapid.IntRange(0, 8).Draw(t, "nops")
 	for i := 0; i < n; i++ {
@@ -172,6 +172,9 @@ func Rich(t *rapid.T, o RichOpts) play.History {
 				continue
 			}
 			v := rapid.SliceOfN(rapid.Byte(), 0, 12).Draw(t, "param")
+			if o.Helpers && rapid.Bool().Draw(t, "array-literal") {
+				v = []byte(rapid.SampledFrom([]string{"{1,2,3}", "{}", "{a,b}", "{NULL,7}", "1", "t"}).Draw(t, "literal"))
+			}
 			if v == nil {
 				v = []byte{}
 			}
